@@ -829,6 +829,20 @@ func (e *Exec) intrinsic(fn *ssa.Function, args []Value) (Value, bool) {
 			e.ilUnlock(e.nonNil(args[0]).alts[0].cell)
 		}
 		return nil, true
+	case "(*sync.Pool).Put":
+		return nil, true
+	case "(*sync.Pool).Get":
+		// no pooling: every Get allocates through New (or yields nil)
+		pc := e.nonNil(args[0]).alts[0].cell
+		st, _ := pc.typ.Underlying().(*types.Struct)
+		for i := 0; st != nil && i < st.NumFields(); i++ {
+			if st.Field(i).Name() == "New" {
+				if fv, ok := e.loadCell(pc.elems[i]).(*FuncV); ok && (fv.fn != nil || fv.builtin != "") {
+					return e.callValue(fv, nil, nil), true
+				}
+			}
+		}
+		return &IfaceV{}, true
 	case "(*sync.Once).Do":
 		// run f if the once's done flag is unset; under zzInterleave the once is a lock while f runs
 		// and observing "done" is an acquire
